@@ -4,7 +4,11 @@ C09 — `value never read` / `no side effect` claims about variables are true.
 `Model/Taint.lean` has (i) the analysis: taint steps, constraint steps, the closure loop, the sink set
 and the classification of `side_effect_analysis.rs`, over the facts read off the SSA CFG, and (ii) a
 machine on which the property's effects are events: values written to input/output signals,
-constraints mentioning such a signal, assertion/return values, array dimensions, branch decisions.
+constraints mentioning such a signal — in their text or through the symbolic value of a local they read (`mention`: any set of
+variables that an input/output signal flows into; `var lc = n * in; lc === 6;` is the constraint `n * in = 6`) —,
+assertion/return values, array dimensions, branch decisions.  (Until the third round the machine only counted a constraint
+that names such a signal in its text; with that reading the theorem was true of an analysis that reported `n` and `lc` above
+as unused — defect `F-C09-single-constraint`, found by an independent audit, repaired, and the reading corrected.)
 
 For every program (any CFG shape, loops included), every number of steps and every replacement of
 the values stored by the assignments to a claimed variable `x` (a fresh value at every execution of
@@ -37,9 +41,10 @@ theorem C09_closure_terminates (es : List (V × V)) (x : V) :
 /-- the sink set contains every input/output signal, every variable read by a condition, a
     dimension, an assertion or a return value, and every variable of a constraint that mentions an
     input/output signal -/
-theorem C09_sinks_cover (d : Def) (S : List V) (h : d.sinks = some S) :
-    Covers d.facts d.exported S :=
-  let c := sinks_cover d S h
+theorem C09_sinks_cover (d : Def) (S : List V) (h : d.sinks = some S) (M : List V)
+    (hM : ∀ u, u ∈ M → ∃ e, e ∈ d.exported ∧ Reach (edges d.facts) e u) :
+    Covers d.facts d.exported M S :=
+  let c := sinks_cover d S h M hM
   ⟨c.1, c.2.1, c.2.2⟩
 
 /-- a claimed variable reaches no sink -/
@@ -68,14 +73,15 @@ theorem C09_unread (d : Def) (x : V) (h : d.classify x = some (some .unread)) :
 theorem C09_noninterference {Val : Type} (p : Prog Val) (d : Def) (hd : d.facts = p.facts)
     (S : List V) (hS : d.sinks = some S) (hw : consWfB d.facts = true)
     (x : V) (c : Claim) (hc : d.classify x = some (some c))
+    (M : List V) (hM : ∀ u, u ∈ M → ∃ e, e ∈ d.exported ∧ Reach (edges d.facts) e u)
     (ora : Nat → Val) (k : Nat) (s s' : State Val)
     (h0 : Rel (edges p.facts) x s s') :
-    (run d.exported p k s).trace = (runO d.exported (replace x ora) p k 0 s').trace := by
-  have hcov := C09_sinks_cover d S hS
+    (run d.exported M p k s).trace = (runO d.exported M (replace x ora) p k 0 s').trace := by
+  have hcov := C09_sinks_cover d S hS M hM
   have hsafe := C09_claim_safe d S x c hS hw hc
   rw [hd] at hcov hsafe
-  rw [← runO_id d.exported p k 0 s]
-  exact (run_rel d.exported S p x ora hcov hsafe k 0 s s' h0).trace
+  rw [← runO_id d.exported M p k 0 s]
+  exact (run_rel d.exported M S p x ora hcov hsafe k 0 s s' h0).trace
 
 /-! non-vacuity: `v = a; w = v + 1; out <== a` — `v` (1) is read but reaches no sink, `w` (2) is unread -/
 def exDef : Def :=
@@ -86,5 +92,12 @@ example : exDef.classify 1 = some (some .noSideEffect) := by decide
 example : exDef.classify 2 = some (some .unread) := by decide
 example : exDef.classify 3 = some none := by decide
 example : consWfB exDef.facts = true := by decide
+
+/-! the defect repaired in the third round: `var lc = n * a; lc === 6; out <== a` (0 = `a`, 1 = `n`, 2 = `lc`, 3 = `out`): the
+    local `lc` and the parameter `n` are used in constraint generation — no claim -/
+def exSingle : Def :=
+  { facts := [.assign 2 [1, 0] false, .constraint [2] [2], .assign 3 [0, 3] false, .constraint [0, 3] []],
+    params := [1], exported := [0, 3], underscore := [], fuel := 10 }
+example : exSingle.classify 2 = some none ∧ exSingle.classify 1 = some none := by decide
 
 end Circomspect.C09
